@@ -19,6 +19,7 @@ import (
 	"github.com/gopher-fleece/gleece/v2/generator/templates/gin"
 	"github.com/gopher-fleece/gleece/v2/generator/templates/mux"
 	"github.com/gopher-fleece/gleece/v2/infrastructure/logger"
+	"github.com/gopher-fleece/gleece/v2/infrastructure/verifhook"
 )
 
 var RoutesTemplateName = "Routes"
@@ -227,9 +228,11 @@ func GenerateRoutes(
 		logger.Fatal("Could not render routes template - %v", err)
 		return err
 	}
+	verifhook.Emit("RoutesRendered", "engine", string(args.Engine), "bytes", len(result))
 
 	logger.Debug("Formatting %d bytes of output code", len(result))
 	formattedOutput, err := compilation.OptimizeImportsAndFormat(result)
+	verifhook.Emit("RoutesFormatted", "ok", err == nil)
 	if err != nil {
 		logger.Warn("Could not format output - %v", err)
 		formattedOutput = result
@@ -245,6 +248,7 @@ func GenerateRoutes(
 		logger.Fatal("Could not write output file at '%s' with permissions '%v' - %v", args.OutputPath, args.OutputFilePerms, err)
 		return err
 	}
+	verifhook.Emit("RoutesWritten", "path", args.OutputPath)
 
 	return nil
 }
